@@ -422,6 +422,7 @@ func TestVerif_C17_Foundation(t *testing.T) {
 		comp uint16
 		tcp  TCPType
 		rel  int
+		rip  string // related (base) address: not part of the foundation
 	}
 	gen := rapid.Custom(func(rt *rapid.T) fc {
 		n := rapid.SampledFrom(c17Nets).Draw(rt, "net")
@@ -434,6 +435,7 @@ func TestVerif_C17_Foundation(t *testing.T) {
 			typ: rapid.SampledFrom(c17Types).Draw(rt, "type"), net: n, addr: a,
 			port: rapid.IntRange(1, 65535).Draw(rt, "port"), comp: rapid.Uint16Range(1, 3).Draw(rt, "comp"),
 			tcp: rapid.SampledFrom(c17TCP).Draw(rt, "tcp"), rel: rapid.IntRange(0, 65535).Draw(rt, "rel"),
+			rip: rapid.SampledFrom([]string{"10.9.9.9", "10.9.9.9", "10.9.9.10", "192.0.2.44", ""}).Draw(rt, "relatedAddress"),
 		}
 	})
 	mk := func(rt *rapid.T, f fc) Candidate {
@@ -445,11 +447,11 @@ func TestVerif_C17_Foundation(t *testing.T) {
 		case CandidateTypeHost:
 			c, err = NewCandidateHost(&CandidateHostConfig{Network: f.net.NetworkShort(), Address: f.addr, Port: f.port, Component: f.comp, TCPType: f.tcp})
 		case CandidateTypeServerReflexive:
-			c, err = NewCandidateServerReflexive(&CandidateServerReflexiveConfig{Network: f.net.NetworkShort(), Address: f.addr, Port: f.port, Component: f.comp, RelAddr: "10.9.9.9", RelPort: f.rel})
+			c, err = NewCandidateServerReflexive(&CandidateServerReflexiveConfig{Network: f.net.NetworkShort(), Address: f.addr, Port: f.port, Component: f.comp, RelAddr: f.rip, RelPort: f.rel})
 		case CandidateTypePeerReflexive:
-			c, err = NewCandidatePeerReflexive(&CandidatePeerReflexiveConfig{Network: f.net.NetworkShort(), Address: f.addr, Port: f.port, Component: f.comp, RelAddr: "10.9.9.9", RelPort: f.rel})
+			c, err = NewCandidatePeerReflexive(&CandidatePeerReflexiveConfig{Network: f.net.NetworkShort(), Address: f.addr, Port: f.port, Component: f.comp, RelAddr: f.rip, RelPort: f.rel})
 		case CandidateTypeRelay:
-			c, err = NewCandidateRelay(&CandidateRelayConfig{Network: f.net.NetworkShort(), Address: f.addr, Port: f.port, Component: f.comp, RelAddr: "10.9.9.9", RelPort: f.rel})
+			c, err = NewCandidateRelay(&CandidateRelayConfig{Network: f.net.NetworkShort(), Address: f.addr, Port: f.port, Component: f.comp, RelAddr: f.rip, RelPort: f.rel})
 		}
 		_ = b
 		if err != nil {
@@ -466,7 +468,7 @@ func TestVerif_C17_Foundation(t *testing.T) {
 		}
 		cx, cy := mk(rt, x), mk(rt, y)
 		same := x.typ == y.typ && x.net == y.net && x.addr == y.addr
-		st.Record(vfHash(x, y), same && (x.port != y.port || x.comp != y.comp || x.tcp != y.tcp), fmt.Sprintf("same:%v", same))
+		st.Record(vfHash(x, y), same && (x.port != y.port || x.comp != y.comp || x.tcp != y.tcp || x.rip != y.rip), fmt.Sprintf("same:%v", same), fmt.Sprintf("related-address-differs:%v", same && x.rip != y.rip && x.typ != CandidateTypeHost))
 		if st.WantSample() {
 			st.Sample(func() string { return fmt.Sprintf("%+v / %+v -> %s / %s", x, y, cx.Foundation(), cy.Foundation()) })
 		}
